@@ -1,6 +1,8 @@
 //! Correspondence harness: runs the real feoxdb code on generated cases and writes
 //! (a) the case lines for `modelrun` and (b) the implementation's canonical results.
 mod fsm;
+mod img;
+mod mutimg;
 mod util;
 
 use std::env;
@@ -14,6 +16,10 @@ fn main() {
     let opts = util::Opts::parse(&args[2..]);
     let code = match args[1].as_str() {
         "fs" => fsm::run(&opts),
+        "img" => img::run(&opts),
+        "mutimg" => mutimg::run(&opts),
+        "probe" => img::probe(&opts),
+        "genimg" => img::genimg(&opts),
         "replay" => replay(&opts),
         other => {
             eprintln!("unknown engine {other}");
@@ -31,6 +37,7 @@ fn replay(opts: &util::Opts) -> i32 {
     let rest: Vec<&str> = toks.collect();
     let (res, verdict) = match kind {
         "fs" => fsm::replay(&rest),
+        "open" => img::replay(&rest),
         _ => ("unknown-kind".to_string(), "".to_string()),
     };
     println!("{res} | {verdict}");
